@@ -353,6 +353,7 @@ func (e *FunctionCallExpr) Value(ctx *hcl.EvalContext) (cty.Value, hcl.Diagnosti
 	varParam := f.VarParam()
 
 	args := e.Args
+	var expandMarks cty.ValueMarks
 	if e.ExpandFinal {
 		if len(args) < 1 {
 			// should never happen if the parser is behaving
@@ -403,6 +404,10 @@ func (e *FunctionCallExpr) Value(ctx *hcl.EvalContext) (cty.Value, hcl.Diagnosti
 			// the collection itself, and apply any marks directly to the
 			// elements. This ensures that marks propagate correctly.
 			expandVal, marks := expandVal.Unmark()
+			// The number of arguments depends on the collection, so its marks
+			// also apply to the result (an empty collection has no element to
+			// carry them).
+			expandMarks = marks
 			newArgs := make([]Expression, 0, (len(args)-1)+expandVal.LengthInt())
 			newArgs = append(newArgs, args[:len(args)-1]...)
 			it := expandVal.ElementIterator()
@@ -629,7 +634,7 @@ func (e *FunctionCallExpr) Value(ctx *hcl.EvalContext) (cty.Value, hcl.Diagnosti
 		return cty.DynamicVal, diags
 	}
 
-	return resultVal, diags
+	return resultVal.WithMarks(expandMarks), diags
 }
 
 func (e *FunctionCallExpr) Range() hcl.Range {
